@@ -124,28 +124,27 @@ Theorem C03_timeline_mpd : forall r F a cdur dflt codec startNr refT entries,
 Proof. exact mpd_audio_timeline_ok. Qed.
 Print Assumptions C03_timeline_mpd.
 
-(** C03_timeline_sampledur_refuted: the hypothesis fails for an admitted asset: AAC (1024-sample
-    frames, measured constant sample duration 1024) at 44.1 kHz without a default sample duration in
-    trex/tfhd; the MPD code works with frame duration 0 and the MPD request panics (integer divide by
-    zero in calcAudioTimeFromRef). *)
-Theorem C03_timeline_sampledur_refuted :
-  mpd_frame_dur 1024 0 0 44100 = 0 /\
-  mpd_audio_timeline 0 0 [(60060, 3)] 30000 1024 0 0 44100
-  = Panic "calcAudioTimeFromRef: integer divide by zero (audioFrameDur)".
-Proof. exact timeline_sampledur_refuted_witness. Qed.
-Print Assumptions C03_timeline_sampledur_refuted.
+(** C03_timeline_admitted: for an admitted audio representation (non-zero constant sample duration,
+    which is the frame duration [F]) the hypothesis of C03_timeline_mpd holds. *)
+Theorem C03_timeline_admitted : forall cdur dflt codec a, cdur <> 0 -> mpd_frame_dur cdur dflt codec a = cdur.
+Proof. exact mpd_frame_dur_const. Qed.
+Print Assumptions C03_timeline_admitted.
 
-(** C03_timeline_sampledur_wrong_refuted: the other symptom of the same defect: 2048-sample frames at
-    48 kHz ("mp4a.40.5"), no default sample duration: the MPD code works with 1024; the fourth listed
-    duration is 95232 although the segments are cut on the 2048 grid (96256). *)
-Theorem C03_timeline_sampledur_wrong_refuted :
-  mpd_frame_dur 2048 0 0 48000 = 1024 /\
+(** C03_timeline_sampledur (formerly _refuted): 44.1 kHz AAC without default sample duration. *)
+Theorem C03_timeline_sampledur :
+  mpd_frame_dur 1024 0 0 44100 = 1024 /\
+  mpd_audio_timeline 0 0 [(60060, 3)] 30000 1024 0 0 44100
+  = Ok [ {| e_t := Some 0; e_d := 89088; e_r := 0 |}; {| e_t := None; e_d := 88064; e_r := 2 |} ].
+Proof. exact timeline_sampledur_witness. Qed.
+Print Assumptions C03_timeline_sampledur.
+
+(** C03_timeline_sampledur_2048 (formerly _wrong_refuted): 2048-sample frames at 48 kHz. *)
+Theorem C03_timeline_sampledur_2048 :
+  mpd_frame_dur 2048 0 0 48000 = 2048 /\
   exists l, mpd_audio_timeline 0 0 [(180000, 3)] 90000 2048 0 0 48000 = Ok l /\
-            expand_s 0 l = [(0, 96256); (96256, 96256); (192512, 96256); (288768, 95232)] /\
-            map (image 90000 2048 48000) (expand_ref 0 [(180000, 3)])
-            = [(0, 96256); (96256, 96256); (192512, 96256); (288768, 96256)].
-Proof. exact timeline_sampledur_wrong_witness. Qed.
-Print Assumptions C03_timeline_sampledur_wrong_refuted.
+            expand_s 0 l = map (image 90000 2048 48000) (expand_ref 0 [(180000, 3)]).
+Proof. exact timeline_sampledur_2048_witness. Qed.
+Print Assumptions C03_timeline_sampledur_2048.
 
 (** the listed pair of a reference entry (T, d) is (start, end - start) of the recipe for that segment *)
 Theorem C03_timeline_recipe : forall r F a nr s e D,
